@@ -1334,3 +1334,21 @@ def c05_segment_distance2(p, a, b):
     t = np.clip(np.sum((p - a[None]) * ab, -1) / np.sum(ab * ab, -1), 0.0, 1.0)
     q = a[None] + t[..., None] * ab
     return np.linalg.norm(p - q, axis=-1)
+
+
+def c15_straight_first_corner(rng):
+    """A clearly simple polygon with dyadic coordinates (multiples of 1/32) whose FIRST corner is a straight angle:
+    the midpoint of the first edge is inserted as vertex 1 (exactly collinear in floating point).
+    Returns (p2, info)."""
+    for _ in range(400):
+        p, info = c15_simple_polygon(rng, margin=2e-2)
+        q = np.round(p * 32 * 8) / 32          # size ~ 8, multiples of 1/32
+        if len(q) > 39 or not c15_exact_simple(q) or c15_simple_margin(q) <= 1e-2:
+            continue
+        mid = (q[0] + q[1]) / 2
+        r = np.vstack([q[:1], [mid], q[1:]])
+        a, b, c = c15_int_coords(r[:3])
+        if c15_orient(a, b, c) != 0 or not c15_exact_simple(r):
+            continue
+        return np.ascontiguousarray(r), dict(info, n=len(r), base_margin=c15_simple_margin(q))
+    raise RuntimeError("could not generate a straight-first-corner polygon")
